@@ -181,10 +181,10 @@ func (e *extracter) extractField(val reflect.Value, s capnp.Struct, f schema.Fie
 		if err != nil {
 			return err
 		}
-		var b []byte
-		if p.IsValid() {
-			b = p.TextBytes()
-		} else {
+		// Like the generated accessors (Ptr.TextDefault): a pointer that
+		// does not hold a text falls back to the schema default.
+		b := p.TextBytes()
+		if b == nil {
 			b, _ = dv.TextBytes()
 		}
 		if val.Kind() == reflect.String {
